@@ -268,6 +268,126 @@ def _connection_task(srv):
     return b, viol, reach, bad
 
 
+def _serve_with_graceful_shutdown(srv):
+    """utils::serve_with_graceful_shutdown (the low-level API's connection driver): the function finishes only with the connection's own completion; when the stop future
+    completes first, graceful_shutdown() is requested once and the connection is still driven to its end; no future is polled again after it completed"""
+    b = R.find_body(srv, r"^fn serve_with_graceful_shutdown::\{closure#0\}\(_1: Pin<&mut \{async fn body of serve_with_graceful_shutdown<")
+    which = z3.Bool("select.connection_first")
+
+    def sel_val(ex_):
+        e = Node(ex_.ctx.fresh_name("either"), "Either")
+        d = Node(e.name + ".discr", "isize")
+        d.val = z3.If(which, z3.BitVecVal(0, 64), z3.BitVecVal(1, 64))
+        e.kids["discr"] = d
+        for vn in ("Left", "Right"):
+            k = Node(f"{e.name}.{vn}:0", None)
+            t = Node(k.name + ".t", "tuple")
+            for j in range(2):
+                kk = Node(f"{t.name}.{j}", None)
+                kk.val = Opaque(z3.Const(f"select_{vn}.{j}", OBJ))
+                t.kids[j] = kk
+            ex_.write(k, t)
+            e.kids[(vn, 0)] = k
+        return e
+    stop_polls = []
+
+    def m_other_poll(ex, st, callee, args, dty, site):
+        # any other future polled directly by this function (a rewritten body may poll the stop future or the connection by hand): its completions are counted
+        if "impl Future<Output = ()>" in callee or "PollFn<" in callee or "Fuse<" in callee:
+            n = len([e for e in st["events"] if e.kind == "c10" and e.callee == "stop_ready"])
+            flag = z3.Bool(ex.ctx.fresh_name("stop_poll.ready"))
+
+            def rd(ex_, st_, tr):
+                st_["events"].append(Event("c10", "stop_ready", [], [], None, None, "", ""))
+                return ex_.mk_variant("Poll", 0, "Ready", MM.UNIT)
+            if n >= 1:
+                st["events"].append(Event("c10", "stop_polled_after_completion", [], [], None, None, "", ""))
+            return Fork([(flag, rd), (z3.Not(flag), lambda ex_, st_, tr: ex_.mk_variant("Poll", 1, "Pending"))])
+        return NotImplemented
+    def m_poll_fn_new(ex, st, callee, args, dty, site):
+        n = Node(ex.ctx.fresh_name("pollfn"), "PollFn")
+        k = Node(n.name + ".0", None)
+        if isinstance(args[0], Node):
+            ex.write(k, args[0])
+        else:
+            k.val = args[0]
+        n.kids[0] = k
+        return n
+
+    def m_rng(ex, st, callee, args, dty, site):
+        v = z3.BitVec(ex.ctx.fresh_name("select.start"), 32)
+        if args and isinstance(args[0], z3.BitVecRef):
+            st["pc"].append(z3.ULT(v, args[0]))
+        return v
+
+    def m_pollfn_poll(ex, st, callee, args, dty, site):
+        # a tokio::select! written into this function: its closure is executed as it stands
+        if "PollFn<" not in callee:
+            return NotImplemented
+        pin = args[0]
+        try:
+            f = MM.value_of(ex, ex.read_node(ex.child(pin, 0, None)) if isinstance(pin, Node) else pin)
+        except Exception:
+            f = None
+        if isinstance(f, Node) and 0 in f.kids:
+            f = ex.read_node(f.kids[0])
+        cb = ex.closure_body(f, near=b.name) if f is not None else None
+        if cb is None:
+            return NotImplemented
+        from ..sym import Inline
+        first = Ptr(f) if (cb.params[0][1] or "").strip().startswith("&") else f
+        return Inline(cb, [first, args[1]], callee)
+    models = [(r"^std::future::poll_fn::<", m_poll_fn_new), (r"as (futures_util::|std::future::)?Future>::poll$", m_pollfn_poll),
+              _poll_model([("Select<", "select", sel_val), ("UpgradeableConnection<", "conn_await", lambda ex_: Opaque(z3.Const("conn_result", OBJ)))]),
+              (r"as (futures_util::|std::future::)?Future>::poll$", m_other_poll),
+              (r"^tokio::macros::support::thread_rng_n$", m_rng),
+              (r"poll_budget_available$", lambda ex, st, c, a, d, s_: ex.mk_variant("Poll", 0, "Ready", MM.UNIT))]
+    from .. import listmodels as LM
+    ctx = P.make_ctx(srv, extra_models=models + LM.LIST_MODELS + list(SQ.TRY_MODELS) + list(M.TRACING_MODELS) + list(M.INT_MODELS), max_paths=8000, max_visits=4)
+    ctx.visit_overrides = [(r"tokio-[\d.]+/src/macros/select\.rs", 6)]
+    ctx.consts = dict(ctx.consts, **R.mir_consts("server"))
+    ctx.inline = []
+    ex = Executor(ctx)
+    paths = ex.run_coroutine(b)
+    bad = [(p.kind, p.detail) for p in paths if p.kind in ("unsupported", "limit", "unwound", "panic")]
+    viol, reach = [], {"connection-first": [], "stopped-first": []}
+    for p in paths:
+        if p.kind != "return":
+            continue
+        pc = p.cond()
+        seq = [e for e in p.events if e.kind in ("call", "c10")]
+        sel = _idx(seq, lambda e: e.kind == "call" and e.callee.endswith("::poll") and "Select<" in e.callee)
+        gs = _idx(seq, lambda e: e.kind == "call" and re.search(r"::graceful_shutdown$", e.callee))
+        aw = _idx(seq, lambda e: e.kind == "call" and e.callee.endswith("::poll") and "UpgradeableConnection<" in e.callee and "Select<" not in e.callee)
+        again = _idx(seq, lambda e: e.kind == "c10" and e.callee == "stop_polled_after_completion")
+        if again:
+            viol.append(pc)                    # a completed `async fn` future polled again panics: the connection task dies with calls in flight
+        d = z3.simplify(ex.discr_of(p.ret)) if isinstance(p.ret, Node) else None
+        finished = d is not None and z3.is_bv_value(d) and d.as_long() == 0
+        state = getattr(p, "state", None) or 0
+        if len(gs) > 1:
+            viol.append(pc)
+        if gs and state == 0:
+            # requested only after the race said: the stop future completed first
+            if not sel or sel[-1] > gs[0] or ex.feasible(list(p.pc) + [z3.Not(z3.And(z3.Bool("select.ready"), z3.Not(which)))]):
+                viol.append(pc)
+        if finished:
+            direct = bool(sel) and not aw and not ex.feasible(list(p.pc) + [z3.Not(z3.And(z3.Bool("select.ready"), which))])
+            after = bool(aw) and not ex.feasible(list(p.pc) + [z3.Not(z3.Bool("conn_await.ready"))]) and (bool(gs) or state != 0)
+            if direct:
+                reach["connection-first"].append(pc)
+            elif after:
+                reach["stopped-first"].append(pc)
+            else:
+                viol.append(pc)                # finished although the connection did not
+    # (a select! written into the body brings its own `all branches disabled` panic arm, which no branch without a precondition can reach)
+    bad = [x for x in bad if not (x[0] == "panic" and "panic_fmt" in str(x[1]))]
+    if [x for x in bad if x[0] != "unwound"] == [] and R.violation_reachable(viol):
+        # a rewritten body that loops: the paths cut at the unrolling bound decide nothing, the completed ones that violate do
+        bad = []
+    return b, viol, reach, bad
+
+
 def _accept_paths(srv):
     """explores Server::start_inner (two accept-loop iterations from every resume point); returns body, executor, paths, the 'token channel closed' symbol"""
     b = R.find_body(srv, r"^fn server::<impl at server/src/server\.rs:[\d: ]+>::start_inner::\{closure#0\}\(_1: Pin<&mut \{async fn body of")
@@ -460,7 +580,7 @@ def _writer_task(srv):
             f = tgt
             if isinstance(f, Node) and 0 in f.kids:
                 f = ex.read_node(f.kids[0])
-            cb = ex.closure_body(f) if f is not None else None
+            cb = ex.closure_body(f, near=b.name) if f is not None else None
             if cb is None:
                 raise Unsupported("poll_fn closure not found")
             from ..sym import Inline
@@ -550,6 +670,11 @@ def obligations(tier, seed):
         q = [v if isinstance(v, z3.ExprRef) else z3.BoolVal(bool(v)) for v in viol]
         out.append(R.decide(name, "order", z3.Or(*q) if q else z3.BoolVal(False), [z3.Or(*v) for v in reach_l], bodies=bodies, desc=desc, bounds=bounds, keydetail=keydetail, replay=rp))
     b, viol, reach, bad = _accept_loop(srv)
+    b_, viol_, reach_, bad_ = _serve_with_graceful_shutdown(srv)
+    emit("order:serve_with_graceful_shutdown", b_, viol_, reach_, bad_,
+         "the low-level API's connection driver finishes only with the connection's own completion; when the stop future completes first, graceful_shutdown() is requested once - after that "
+         "completion was observed - and the connection is still driven to its end; no completed future is polled again",
+         "every resume point; every readiness of the race and of the connection", "serve-graceful")
     emit("order:Server::start_inner:waits-for-connection-tokens", b, viol, reach, bad,
          "every connection task is given a clone of the completion token; start_inner finishes only after it dropped its own token and the token channel reported that all clones are gone",
          "accept outcomes Established / Err / Shutdown in any sequence (3 visits per loop head); every resume point", "accept-loop")
